@@ -22,8 +22,9 @@ def register(w):
                             "same_class(node, result)", "dok(result)"],
         "assumes": ["NodeTransformer.generic_visit returns the node it was given (same class), its "
                     "children replaced by visit results that satisfy the hypothesis",
-                    "visit_Call / process_method_call / callbacks (typing and inspect reflection) "
-                    "are not under contract: assumed to satisfy the hypothesis",
+                    "process_method_call / process_function_call / process_parameterized_method_call "
+                    "(typing and inspect reflection, callbacks) are assumed contracts; visit_Call's "
+                    "routing to them is proved",
                     "visit_Dict (comprehension over zip of symbolic lists, make_dataclass) is "
                     "outside the engine's subset: assumed to satisfy the hypothesis, exercised "
                     "by engine B"],
@@ -53,6 +54,38 @@ def register(w):
             "modifies": ["*"],
             "properties": ["C10", "C08"],
         })
+    # visit_Call: routing of a (generically visited) call to the three typed-call processors. The
+    # processors themselves (typing / inspect reflection, callbacks) are ASSUMED contracts: a
+    # well-formed expression back, or ValueError
+    for m, params in (("process_method_call", {"node": "py", "obj_type": "py"}),
+                      ("process_function_call", {"node": "py", "func_info": "py"}),
+                      ("process_parameterized_method_call",
+                       {"node": "py", "obj_type": "py", "attr_name": "py", "slice": "py", "value": "py"})):
+        C.register(w, {
+            "key": f"{K}.{m}",
+            "self": K,
+            "params": params,
+            "requires": ["isinstance(node, ast.Call)", "wf(node)", "dok(node)"],
+            "raises": {"ValueError": "any"},
+            "ensures": ["wf(result)", "is_expr(result)", "is_node(result)", "dok(result)"],
+            "modifies": ["*"],
+            "abstract": True, "trusted": True,
+            "assumes": [f"{m} (typing / inspect reflection, default filling, callbacks: C07-C09, "
+                        "bounded there) returns a well-formed expression or raises ValueError"],
+            "properties": ["C10", "C08"],
+        })
+    C.register(w, {
+        "key": f"{K}.visit_Call",
+        "self": K,
+        "params": {"node": "py"},
+        "requires": ["isinstance(node, ast.Call)", "wf(node)", "dok(node)"],
+        "raises": {"ValueError": "any"},
+        # a call whose callee is neither an attribute of a value of known type, nor a registered
+        # function, nor a parameterized property stays the (generically visited) call itself
+        "ensures": ["dok(result)", "is_expr(result)"],
+        "modifies": ["*"],
+        "properties": ["C10", "C08"],
+    })
     # visit_Attribute: an attribute of a dictionary literal is the field lookup {…}.name. Every
     # position collected for the name is in range of `values`, the one used is the position of
     # the LAST key equal to the name (Python's meaning of a repeated key; C08 follows that type),
